@@ -6,6 +6,7 @@
 package main
 
 import (
+	"encoding/json"
 	"bufio"
 	"bytes"
 	"fmt"
@@ -17,6 +18,8 @@ import (
 	"github.com/gcash/bchd/wire"
 	"github.com/gcash/bchutil"
 
+	"verif/harness/cmd/c16/srclits"
+	"verif/harness/cmd/c17/prodrun"
 	"verif/harness/internal/vh"
 )
 
@@ -1302,10 +1305,213 @@ func main() {
 		runTxHistory(ctor, msg, in, trailing, ops, !cfg.Search && i < 70)
 	}
 
+	errorPathFamily(rng.Fork("errorpaths"), mkHistory)
+
 	rep.Cases = cases.Len()
 	rep.Extra["duplicate_cases_dropped"] = cases.Dups
 	_, err := cases.Flush()
 	vh.Must(err)
 	vh.Must(rep.Write(cfg))
 	fmt.Printf("c16: %d implementation executions, %d correspondence cases, %d monitor violations\n", rep.Evaluations, rep.Cases, len(rep.Violations))
+}
+
+// ---------- error paths (round 3) ----------
+// Out-of-range accesses are calls like any other: they must fail with an OutOfRangeError, must not
+// panic and must leave NOTHING behind.  The earlier generators probed a fixed handful of indices
+// (-1, n, n+1, MinInt64 ...) and looked at whatever the random history happened to call next.
+//
+//  1. index sweep: every block shape x constructor is probed, through Tx AND TxHash, with ALL of
+//     -3..n+3, +-(2^e - 1, 2^e, 2^e + 1) for e <= 62, random 31/32/33/63-bit values, decimal-looking
+//     numbers (123456789, 1234567891, 4294967295 + k ...), repdigits, hexspeak and every number that
+//     occurs as a literal in the source of the package as it is now (srclits), in chunks; after each
+//     chunk the WHOLE block is observed again (Transactions, every Tx(i) and TxHash(i), Hash, Bytes,
+//     TxLoc, Height) by the ordinary monitors against fresh computations - on a block where nothing was
+//     cached before the failing calls ("cold") and on one where everything was ("warm");
+//  2. header sweep: what the error path sees of the block is its header: versions (1..4, the
+//     version-bits values 0x20000000.., negative), nonces and bits (hexspeak, all-ones, dictionary) in
+//     a cross product, each followed by a few failing calls and the full re-observation.
+//
+// A guard on one particular index or header value can only be met if that value is in the sweep:
+// memorable numbers and literals of the source are; an arbitrary 32-bit constant computed at run
+// time (or assembled from pieces) is not, and no input-output generator can promise it.
+func errorPathFamily(r *vh.RNG, mkHistory func(*vh.RNG, string, *wire.MsgBlock, int) history) {
+	dict := srclits.Harvest(false, srclits.RepoDir())
+	rep.Extra["dictionary"] = map[string]interface{}{"files": dict.Files, "source_literals": len(dict.Raw)}
+	wide := cfg.Thorough() || cfg.Search
+	ctors := []string{"new", "bytes", "reader", "blockandbytes"}
+	observe := func(n int) []opSpec {
+		ops := []opSpec{{"txs", 0}, {"hash", 0}, {"bytes", 0}, {"txloc", 0}, {"height", 0}}
+		for i := 0; i < n; i++ {
+			ops = append(ops, opSpec{"tx", int64(i)}, opSpec{"txhash", int64(i)})
+		}
+		return append(ops, opSpec{"txs", 0})
+	}
+	sweep := func(n int) []int64 {
+		var xs []int64
+		for i := int64(-3); i <= int64(n)+3; i++ {
+			xs = append(xs, i)
+		}
+		for e := uint(1); e <= 62; e++ {
+			for d := int64(-1); d <= 1; d++ {
+				xs = append(xs, int64(1)<<e+d, -(int64(1)<<e + d), int64(n)+int64(1)<<e+d)
+			}
+		}
+		xs = append(xs, math.MaxInt64, math.MinInt64, math.MaxInt64-1, math.MinInt64+1, math.MaxInt32, math.MinInt32, math.MaxUint32)
+		for k := int64(-2); k <= 3; k++ {
+			xs = append(xs, 4294967295+k+int64(n), 2147483647+k+int64(n), 123456789+k, 1234567891+k-1, 1234567890*10+k)
+		}
+		for i := 0; i < 24; i++ {
+			xs = append(xs, int64(r.U64()>>33), int64(r.U64()>>32), int64(r.U64()>>31), int64(r.U64()>>1), -int64(r.U64()>>1), int64(int32(r.U32())))
+		}
+		xs = append(xs, dict.Numbers(0)...)
+		return xs
+	}
+	// 1. index sweep
+	for bi, n := range []int{0, 1, 2, 3, 5} {
+		for ci, ctor := range ctors {
+			if !wide && n == 5 && ci%2 == 1 {
+				continue
+			}
+			m := genBlock(r, n, (bi+ci)%2 == 0)
+			xs := sweep(n)
+			const chunk = 12
+			for lo := 0; lo < len(xs); lo += chunk {
+				hi := lo + chunk
+				if hi > len(xs) {
+					hi = len(xs)
+				}
+				var probes []opSpec
+				for j, x := range xs[lo:hi] {
+					kinds := []string{"tx", "txhash"}
+					probes = append(probes, opSpec{kinds[(j+lo/chunk)%2], x})
+					if j%3 == 0 {
+						probes = append(probes, opSpec{kinds[(j+lo/chunk+1)%2], x})
+					}
+				}
+				cold := mkHistory(r, ctor, m, 0)
+				cold.Ops = append(append([]opSpec{}, probes...), observe(n)...)
+				runHistory(cold, false)
+				prodAdd(cold)
+				rep.Histogram["errorpath_index_sweep_cold"]++
+				if (lo/chunk)%2 == 0 || wide {
+					warm := mkHistory(r, ctor, m, 0)
+					warm.Ops = append(append(observe(n), probes...), observe(n)...)
+					runHistory(warm, false)
+					prodAdd(warm)
+					rep.Histogram["errorpath_index_sweep_warm"]++
+				}
+			}
+		}
+	}
+	// 2. header sweep
+	versions := []int64{0, 1, 2, 3, 4, 0x20000000, 0x20000001, 0x20000002, 0x20000004, 0x3fffffff, 0x7fffffff, -1, math.MinInt32, 0x30000000, 0x20000010, 0x00000020}
+	nonces := []int64{0, 1, 0xffffffff, 0xffff, 0x10000, 0x80000000, 0x7fffffff}
+	bitss := []int64{0x1d00ffff, 0x207fffff, 0x1b0404cb, 0, 0xffffffff}
+	for _, v := range srclits.Memorable() {
+		if v <= math.MaxUint32 && (v > 0xffff || v >= 0x1000 && v&0xf00 >= 0xa00) { // hexspeak, digit runs, big powers of two
+			nonces = append(nonces, v)
+		}
+	}
+	src := dict.Raw
+	if wide {
+		src = dict.Ints
+	}
+	for _, v := range src {
+		if v >= math.MinInt32 && v <= math.MaxInt32 && (v > 255 || v < 0) {
+			versions = append(versions, v)
+		}
+		if v >= 0 && v <= math.MaxUint32 && v > 255 {
+			nonces = append(nonces, v)
+			nonces = append(nonces, v|0xabcd0000, v<<16&0xffffffff|0x1234) // the literal in the low / high half only
+		}
+	}
+	dedup := func(xs []int64) []int64 {
+		seen := map[int64]bool{}
+		var out []int64
+		for _, x := range xs {
+			if !seen[x] {
+				seen[x] = true
+				out = append(out, x)
+			}
+		}
+		return out
+	}
+	versions, nonces = dedup(versions), dedup(nonces)
+	rep.Extra["errorpath_header_sweep"] = map[string]interface{}{"versions": len(versions), "nonces": len(nonces)}
+	k := 0
+	for _, v := range versions {
+		for _, nc := range nonces {
+			k++
+			n := []int{1, 2, 0, 3}[k%4]
+			m := genBlock(r, n, false)
+			m.Header.Version = int32(v)
+			m.Header.Nonce = uint32(nc)
+			m.Header.Bits = uint32(bitss[k%len(bitss)])
+			ctor := ctors[(k/4)%4]
+			bad := []int64{int64(n), -1, int64(n) + 1, math.MaxInt64, math.MinInt64, 1 << 32}
+			h := mkHistory(r, ctor, m, 0)
+			h.Ops = append([]opSpec{{[]string{"tx", "txhash"}[k%2], bad[k%len(bad)]}, {[]string{"txhash", "tx"}[k%2], bad[(k+1)%len(bad)]}}, observe(n)...)
+			if k%3 == 0 { // something cached before the failing call
+				h.Ops = append([]opSpec{{"hash", 0}, {"tx", int64(n - 1)}}, h.Ops...)
+			}
+			runHistory(h, false)
+			prodAdd(h)
+			rep.Histogram["errorpath_header_sweep"]++
+		}
+	}
+	runProd()
+}
+
+// ---------- the build that ships ----------
+// The histories of the family above are also given to harness/cmd/c16/prod, a child built at run
+// time WITHOUT -tags verif in a scratch module (harness/cmd/c17/prodrun): this harness is built with
+// the tag, so files selected by `//go:build !verif` are invisible to it.  (NewBlockFromReader
+// histories go as NewBlockFromBytes, NewBlockFromBlockAndBytes ones as NewBlock; blocks that package
+// wire itself does not read back as written - the known finding - are left out.)
+type prodOp struct {
+	Kind string `json:"k"`
+	Arg  int64  `json:"a"`
+}
+type prodHist struct {
+	Ctor  string   `json:"constructor"`
+	Block string   `json:"block_serialized"`
+	Ops   []prodOp `json:"ops"`
+}
+
+var prodHists []prodHist
+
+func prodAdd(h history) {
+	if h.Msg == nil {
+		return
+	}
+	ser := serBlock(h.Msg)
+	if !wireCanonical(ser) {
+		return
+	}
+	ph := prodHist{Ctor: "new", Block: vh.Hex(ser)}
+	if h.Ctor == "bytes" || h.Ctor == "reader" {
+		ph.Ctor = "bytes"
+	}
+	for _, o := range h.Ops {
+		ph.Ops = append(ph.Ops, prodOp{o.Kind, o.Arg})
+	}
+	prodHists = append(prodHists, ph)
+}
+
+func runProd() {
+	stdin, _ := json.Marshal(prodHists)
+	o, err := prodrun.Run(cfg.Out, "c16", "cmd/c16/prod", stdin)
+	if err != nil {
+		rep.Extra["production_build"] = "NOT RUN: " + err.Error()
+		rep.Histogram["production_build/not_run"]++
+		return
+	}
+	rep.Extra["production_build"] = map[string]interface{}{"main_module": o.MainPath, "build_tags": o.Tags, "executions": o.Executions, "build_seconds": o.BuildSecs, "run_seconds": o.RunSecs}
+	rep.Evaluations += o.Executions
+	for k, v := range o.Histogram {
+		rep.Histogram["production_build/"+k] += v
+	}
+	for _, v := range o.Violations {
+		rep.Violate(v.Key, v.What+" [build without -tags verif]", v.Replay)
+	}
 }
